@@ -387,6 +387,9 @@ func VerifC13IdsRace(h *verifh.H) {
 	mk := func(tag string) []*Entity {
 		v := NewEntity("ns0:v", 0)
 		v.Properties["ns0:from"] = tag
+		if h.Param("three", 0) == 1 {
+			return []*Entity{v} // three writers: the schedule is the only thing drawn
+		}
 		if h.Choice(tag+"ref", 2) == 1 {
 			v.References["ns0:q"] = "ns0:t"
 		}
@@ -399,14 +402,27 @@ func VerifC13IdsRace(h *verifh.H) {
 		return out
 	}
 	b1, b2 := mk("a"), mk("b")
-	var e1, e2 error
+	var e1, e2, e3 error
+	// optionally a third client writes the shared identifier to a third dataset
+	var d3 *Dataset
+	var b3 []*Entity
+	if h.Param("three", 0) == 1 {
+		d3, err = hub.Dsm.CreateDataset("d3", nil)
+		h.Assert(err == nil, "create")
+		v := NewEntity("ns0:v", 0)
+		v.Properties["ns0:from"] = "c"
+		b3 = []*Entity{v}
+	}
 	h.SymbolicLocks()
 	h.SymbolicTxns()
 	h.SymbolicSched(h.Param("preemptions", 2))
 	h.Go(func() { e1 = d1.StoreEntities(b1) })
 	h.Go(func() { e2 = d2.StoreEntities(b2) })
-	h.Assert(h.Wait(), "both writers complete")
-	h.Assert(e1 == nil && e2 == nil, "both batches are acknowledged")
+	if d3 != nil {
+		h.Go(func() { e3 = d3.StoreEntities(b3) })
+	}
+	h.Assert(h.Wait(), "the writers complete")
+	h.Assert(e1 == nil && e2 == nil && e3 == nil, "the batches are acknowledged")
 	u2i, i2u := vIDTables(h, hub)
 	used := map[uint64]string{}
 	for u, id := range u2i {
@@ -418,7 +434,7 @@ func VerifC13IdsRace(h *verifh.H) {
 	for id, u := range i2u {
 		h.Assert(u2i[u] == id, "every internal id belongs to the identifier that maps to it :: id="+itoa(int(id))+" names "+u+" which maps to "+itoa(int(u2i[u])))
 	}
-	for dn, batch := range map[string][]*Entity{"d1": b1, "d2": b2} {
+	for dn, batch := range map[string][]*Entity{"d1": b1, "d2": b2, "d3": b3} {
 		for _, e := range batch {
 			got, err := hub.Store.GetEntity(e.ID, []string{dn}, true)
 			h.Assert(err == nil && got != nil && got.Recorded != 0 && len(got.Properties) == 1, "an acknowledged entity is found under its identifier in its dataset :: ds="+dn+" id="+e.ID)
@@ -428,7 +444,11 @@ func VerifC13IdsRace(h *verifh.H) {
 	h.Assert(err == nil && m != nil, "unscoped lookup")
 	if m != nil {
 		fl, isList := m.Properties["ns0:from"].([]interface{})
-		h.Assert(isList && len(fl) == 2, "the unscoped lookup merges the versions of both datasets :: from="+vRenderVal(m.Properties["ns0:from"]))
+		wantN := 2
+		if d3 != nil {
+			wantN = 3
+		}
+		h.Assert(isList && len(fl) == wantN, "the unscoped lookup merges the versions of all datasets :: from="+vRenderVal(m.Properties["ns0:from"]))
 	}
 	h.Observe("ids", len(u2i))
 }
